@@ -220,7 +220,7 @@ pub fn run(ctx: &Ctx) -> Report {
     total.merge(rnd);
     Report {
         stats: total,
-        rule: format!("exhaustive: every tree with at most {max} nodes (leaves + operators) over the leaves {{true, false, -name a, -print, -quit, -fprint f}} and operators {{!, and, or, ','}}; random trees up to 14 nodes. Each compiled program is executed on the files {{a, b}} and on files directed at the constants of the tree. Oracle: evaluation by find's rules with the implicit print defined as '( E ) -a -print' when the tree has no action anywhere and nothing added otherwise -> same truth, outputs, stop request. Non-trivial: an action is present but some file produces no output (dead or negated branch) with >=1 operator, or no action with OR/',' at the root. Distinct: by (tree, path)."),
+        rule: format!("exhaustive: every tree with at most {max} nodes (leaves + operators) over the leaves {{true, false, -name a, -print, -quit, -fprint f}} and operators {{!, and, or, ','}}; random trees up to 14 nodes. Each compiled program is executed on the files {{a, b}} and on files directed at the constants of the tree. Oracle: evaluation by find's rules with the implicit print defined as '( E ) -a -print' when the tree has no action anywhere and nothing added otherwise -> same truth, outputs, stop request. Also: interaction triples over the whole supported palette (tests with a constant answer such as -uid -0 included), chains nested to the left and to the right with the only action at a chosen operand, expressions without action whose string arguments are tokens of the code generator's own sources, the trees of the policy fuzz corpus. Non-trivial: an action is present but some file produces no output (dead or negated branch) with >=1 operator, or no action with OR/',' at the root. Distinct: by (tree, path)."),
         assumptions: crate::checks::c02::runtime_assumptions(),
         exhaustive: false,
     }
